@@ -4,6 +4,7 @@ import (
 	"fmt"
 	"math/rand"
 	"sort"
+	"strings"
 )
 
 // Generator A: synthetic federated schema sets.
@@ -529,6 +530,17 @@ func (m *mutator) ofKind(kind string) []*typeDef {
 	return out
 }
 
+// plainInputs lists input objects other than the federation key inputs.
+func (m *mutator) plainInputs() []*typeDef {
+	var out []*typeDef
+	for _, t := range m.ofKind("INPUT_OBJECT") {
+		if !strings.HasSuffix(t.Name, "_InputObject") {
+			out = append(out, t)
+		}
+	}
+	return out
+}
+
 func (m *mutator) leafOut() *tref {
 	objs := m.objects(false)
 	x := m.r.Intn(10)
@@ -553,7 +565,7 @@ func (m *mutator) leafIn() *tref {
 	if x < 3 {
 		if is := m.ofKind("INPUT_OBJECT"); len(is) > 0 {
 			t := is[m.r.Intn(len(is))]
-			if len(t.Name) == 2 { // I0/I1, not the key inputs
+			if !strings.HasSuffix(t.Name, "_InputObject") {
 				return named("INPUT_OBJECT", t.Name)
 			}
 		}
@@ -622,6 +634,9 @@ func (m *mutator) apply() string {
 		}
 		f := &t.Fields[i]
 		j := r.Intn(len(f.Args))
+		if f.Args[j].Type.Kind == "NON_NULL" && r.Intn(5) != 0 {
+			return ""
+		}
 		f.Args = append(f.Args[:j:j], f.Args[j+1:]...)
 		return "rm_arg"
 	case op < 43: // add an argument (mostly optional)
@@ -636,7 +651,7 @@ func (m *mutator) apply() string {
 		}
 		at := m.leafIn()
 		kind := "add_arg_optional"
-		if r.Intn(6) == 0 {
+		if r.Intn(12) == 0 {
 			at = nonNull(at)
 			kind = "add_arg_required"
 		}
@@ -692,7 +707,7 @@ func (m *mutator) apply() string {
 		t.Possible = append(t.Possible, o)
 		return "add_union_member"
 	case op < 70: // remove an input field
-		is := m.ofKind("INPUT_OBJECT")
+		is := m.plainInputs()
 		if len(is) == 0 {
 			return ""
 		}
@@ -701,10 +716,13 @@ func (m *mutator) apply() string {
 			return ""
 		}
 		i := r.Intn(len(t.InputFields))
+		if t.InputFields[i].Type.Kind == "NON_NULL" && r.Intn(5) != 0 {
+			return ""
+		}
 		t.InputFields = append(t.InputFields[:i:i], t.InputFields[i+1:]...)
 		return "rm_input_field"
 	case op < 76: // add an input field
-		is := m.ofKind("INPUT_OBJECT")
+		is := m.plainInputs()
 		if len(is) == 0 {
 			return ""
 		}
@@ -715,7 +733,7 @@ func (m *mutator) apply() string {
 		}
 		at := named("SCALAR", scalarNames[r.Intn(2)])
 		kind := "add_input_field_optional"
-		if r.Intn(6) == 0 {
+		if r.Intn(12) == 0 {
 			at = nonNull(at)
 			kind = "add_input_field_required"
 		}
@@ -738,7 +756,7 @@ func (m *mutator) apply() string {
 			flipLevel(f.Args[r.Intn(len(f.Args))].Type, -1, r)
 			return "flip_arg_null"
 		}
-		is := m.ofKind("INPUT_OBJECT")
+		is := m.plainInputs()
 		if len(is) == 0 {
 			return ""
 		}
@@ -747,7 +765,7 @@ func (m *mutator) apply() string {
 		return "flip_input_field_null"
 	case op < 97: // wrap / unwrap a list
 		t, i := m.pickField(true)
-		if t == nil {
+		if t == nil || r.Intn(3) != 0 {
 			return ""
 		}
 		f := &t.Fields[i]
@@ -770,7 +788,7 @@ func (m *mutator) apply() string {
 			return ""
 		}
 		root := t.Fields[i].Type.root()
-		if root.Kind != "SCALAR" || t.Fields[i].Name == "id" {
+		if root.Kind != "SCALAR" || t.Fields[i].Name == "id" || r.Intn(2) != 0 {
 			return ""
 		}
 		if root.Name == "string" {
